@@ -1,0 +1,24 @@
+//go:build verif
+
+package jsonrpc
+
+import "time"
+
+// Verification hooks (build tag "verif"). With the tag off none of this exists
+// and vhook (verif_hooks_off.go) is an empty function.
+
+// VerifHook, when non-nil, is called at every instrumented site. It must be
+// set before any client or server is created and not changed afterwards.
+var VerifHook func(site string, conn interface{}, kv ...interface{})
+
+func vhook(site string, conn interface{}, kv ...interface{}) {
+	if h := VerifHook; h != nil {
+		h(site, conn, kv...)
+	}
+}
+
+// VerifBackoffNext exposes backoff.next to the differential harness.
+func VerifBackoffNext(minDelay, maxDelay time.Duration, attempt int) time.Duration {
+	b := backoff{minDelay: minDelay, maxDelay: maxDelay}
+	return b.next(attempt)
+}
